@@ -218,6 +218,151 @@ def gen_scenario(rng, lagfocus):
     return sc
 
 
+# ------------------------------------------------------------------ restore scenarios (stage 1: real FSM)
+DEFAULT_OFFSET = 4648398125000000000      # default of -robustirc_message_offset in the real binary
+T0 = 1700000000 * 10 ** 9
+HOUR = 3600 * 10 ** 9
+KEEP_NS = (600 + 10) * 10 ** 9           # default session expiration 10 min + expireSessionsInterval 10 s
+
+
+def gen_fsm_spec(rng):
+    """a raft log: 2-3 sessions set up long ago, old traffic (folded into the snapshot state), recent
+    traffic (retained by the snapshot and replayed by Restore), a snapshot after k entries, a few
+    entries applied live after the restore.  The client is session 1."""
+    nicks = ["alice", "bob", "carol"][:rng.choice([2, 3, 3])]
+    entries = [["C", T0 + i + 1] for i in range(len(nicks))]
+    t = T0 + 10
+    for ref, nick in enumerate(nicks, 1):
+        for line in ("NICK " + nick, "USER x 0 * :x", "JOIN #c"):
+            entries.append(["M", ref, t, line]); t += 1
+
+    def traffic(n, t):
+        out = []
+        for _ in range(n):
+            ref = rng.randint(1, len(nicks))
+            k = rng.random()
+            if k < 0.5:
+                line = "PRIVMSG #c :%s" % rng.choice(["hi", "fnord", "x y z"])
+            elif k < 0.7:
+                line = "PRIVMSG %s :psst" % rng.choice(nicks)
+            elif k < 0.8:
+                line = "TOPIC #c :%s" % rng.choice(["t1", "t2"])
+            elif k < 0.9:
+                line = "WHO #c"
+            else:
+                line = "PING foo"
+            out.append(["M", ref, t, line]); t += 1
+        return out, t
+    old, t = traffic(rng.randint(0, 3), t)
+    entries += old
+    recent, t2 = traffic(rng.randint(2, 6), T0 + HOUR)
+    entries += recent
+    k = len(entries) - rng.choice([0, 0, 1])
+    after, _ = traffic(rng.randint(0, 3), t2)
+    entries += after
+    return {"offset": DEFAULT_OFFSET if rng.random() < 0.7 else 0, "cstart": T0 + HOUR + 300 * 10 ** 9,
+            "k": k, "entries": entries}
+
+
+def fsm_line(spec):
+    toks = ["resfsm", str(spec["offset"]), str(spec["cstart"]), str(spec["k"])]
+    for e in spec["entries"]:
+        if e[0] == "C":
+            toks.append("C:%d" % e[1])
+        else:
+            toks.append("M:%d:%d:%s" % (e[1], e[2], e[3].encode().hex()))
+    return " ".join(toks)
+
+
+def parse_dump(d):
+    if d == "-":
+        return []
+    out = []
+    for b in d.split(";"):
+        i, ms = b.split("=", 1)
+        msgs = []
+        for m in ms.split(","):
+            r, t, rc = m.split("/")
+            msgs.append([int(r), "" if t == "-" else t, [] if rc == "-" else [int(x) for x in rc.split("+")]])
+        out.append([int(i), msgs])
+    return out
+
+
+def run_stage1(specs, tag="fsm"):
+    """the real FSM (package main): live node A, node B rebuilt from a protobuf snapshot"""
+    wd = vlib.workdir()
+    inp, outp = os.path.join(wd, tag + ".in"), os.path.join(wd, tag + ".out")
+    open(inp, "w").write("\n".join(fsm_line(s) for s in specs) + "\n")
+    if os.path.exists(outp):
+        os.remove(outp)
+    rc, out = vlib.go_test(".", {vlib.REPO + "/zz_verif_resfsm_test.go": vlib.HGO + "/main/zz_verif_resfsm_test.go"},
+                           "^TestVerifResFsm$", {"VERIF_IN": inp, "VERIF_OUT": outp}, timeout=900)
+    if rc != 0 or not os.path.exists(outp):
+        return None, out
+    res = []
+    for l in open(outp).read().split("\n")[:-1]:
+        f = l.split(" ")
+        if len(f) == 4 and f[1].startswith("A=") and f[2].startswith("B="):
+            res.append({"A": parse_dump(f[1][2:]), "B": parse_dump(f[2][2:]), "snap": f[3][5:]})
+        else:
+            res.append({"error": l[:300]})
+    return res, out
+
+
+def fsm_scenarios(spec, d):
+    """resume on the restored node at every position from just before the replayed window to the end"""
+    off = spec["offset"]
+    sess = off + 1
+    A, B = d["A"], d["B"]
+    # first index retained by the snapshot (entries of the first k newer than the compaction end)
+    first = spec["k"] + 1
+    for idx, e in enumerate(spec["entries"][:spec["k"]], 1):
+        ts = e[1] if e[0] == "C" else e[2]
+        if ts > spec["cstart"] - KEEP_NS:
+            first = idx
+            break
+    horizon = off + first
+    base = sum(1 for b in A if b[0] < horizon)
+    proto = {"sess": sess, "ls0": [sess, 0], "stream": A, "node_streams": {"1": B}, "node_base": {"1": base},
+             "fsm": spec, "window": [horizon, off + spec["k"]]}
+    exp = expected_stream(proto)
+    out = []
+    setup = [["a", 0]] * len(A) + [["a", 1]] * len(B)
+    for k in range(1, len(exp) + 1):
+        # the property is limited to resume points not older than the compaction horizon: every
+        # message still owed to the client lies in a batch the restored node must hold
+        if all(m[1] >= horizon for m in exp[k:]) and exp[k - 1][1] >= horizon - 3:
+            sc = dict(proto, events=setup + [["c", 0], ["r", k], ["x"], ["c", 1], ["r", 0]],
+                      note="restore: resume on the rebuilt node after %d.%d (window %d..%d)" % (exp[k - 1][1], exp[k - 1][2], horizon, off + spec["k"]))
+            out.append(sc)
+    return out
+
+
+def build_restore_cases(specs):
+    """returns (scenarios, error text or None, info)"""
+    info = {"logs": len(specs), "scenarios": 0, "nonzero_offset_logs": sum(1 for s in specs if s["offset"]),
+            "resumes_inside_replayed_window": 0, "unusable_logs": 0}
+    if not specs:
+        return [], None, info
+    dumps, out = run_stage1(specs)
+    if dumps is None:
+        return [], out, info
+    cases = []
+    for spec, d in zip(specs, dumps):
+        if "error" in d:
+            return [], "stage 1 (FSM restore driver) failed on a log: " + d["error"], info
+        scs = fsm_scenarios(spec, d)
+        if not scs:
+            info["unusable_logs"] += 1
+        cases += scs
+    info["scenarios"] = len(cases)
+    for sc in cases:
+        m = re.search(r"after (\d+)\.", sc["note"])
+        if m and sc["window"][0] <= int(m.group(1)) <= sc["window"][1]:
+            info["resumes_inside_replayed_window"] += 1
+    return cases, None, info
+
+
 # ------------------------------------------------------------------ running both sides
 def overlay():
     return {vlib.REPO + "/internal/api/zz_verif_res_test.go": vlib.HGO + "/api/zz_verif_res_test.go"}
@@ -259,6 +404,8 @@ def shrink(sc, failing, max_rounds=60):
         return out
 
     cur = sc
+    if "fsm" in sc:
+        return sc           # streams come from the real FSM; the scenario is already a single resume
     pre = [dict(cur, events=cur["events"][:n]) for n in range(1, len(cur["events"]))]
     for x, g in zip(pre, run(pre)):
         if failing(x, g):
@@ -330,6 +477,7 @@ def run(ck, replay):
     ck.cov["trusted_base"] += [
         "Go driver harness/go/api/zz_verif_res_test.go: runs the real getMessages goroutine; plays the per-session filter of handleGetMessages (one line, checked by a source scan) and the client; detects 'parked in GetNext' through sync.Cond's notifyList counters",
         "python reference of the session's filtered stream used by the monitor; regex scan of getmessages.go",
+        "stage-1 driver harness/go/main/zz_verif_resfsm_test.go (real FSM.Apply/Snapshot/Persist/Restore in package main; its output-stream dumps are loaded into the nodes of the resume scenarios); the reference of a restore scenario is the stream of the node that applied the log live",
         "modelled, not verified: OutputStream.GetNext at its linearisation point (justified by C08_getnext_safe), the unbuffered channel hand-over, net/http streaming and JSON encoding of each message, context cancellation",
         "NOT modelled: Go scheduler fairness - 'nothing missing' is proved at quiescence (handler blocked in GetNext with nothing in flight)"]
     ck.assumptions += [
@@ -342,14 +490,33 @@ def run(ck, replay):
     for k, v in facts.items():
         ck.add_obligation(v, "getmessages.go shape: " + k)
 
+    restore_info = {}
     if replay:
         cases = json.load(open(replay)).get("cases", [])
         ncorpus = 0
+        # restore scenarios: the node streams are re-derived from the tree under test
+        for c in cases:
+            if "fsm" in c:
+                scs, err, _ = build_restore_cases([c["fsm"]])
+                if err:
+                    ck.violation("tie-broken:go-driver", {"what": "stage 1 (FSM restore driver) did not build/run", "output": err[-3000:],
+                                                          "obligation": "correspondence apidrv (res, restore)"}, concrete=False)
+                    return
+                same = [x for x in scs if x["events"] == c["events"]]
+                if same:
+                    c["stream"], c["node_streams"], c["node_base"] = same[0]["stream"], same[0]["node_streams"], same[0]["node_base"]
     else:
         corpus = load_corpus()
         ncorpus = len(corpus)
         n = 1500 if ck.tier == "quick" else 20000
         cases = list(corpus) + [gen_scenario(ck.rng, lagfocus=(k % 2 == 0)) for k in range(n)]
+        specs = [gen_fsm_spec(ck.rng) for _ in range(14 if ck.tier == "quick" else 150)]
+        rcases, rerr, restore_info = build_restore_cases(specs)
+        if rerr:
+            ck.violation("tie-broken:go-driver", {"what": "stage 1 (FSM restore driver, package main) did not build/run against the current tree",
+                                                  "output": rerr[-3000:], "obligation": "correspondence apidrv (res, restore)"}, concrete=False)
+            return
+        cases += rcases
     lines = [case_line(c) for c in cases]
     glines, goout = run_go(lines)
     if glines is None:
@@ -420,9 +587,11 @@ def run(ck, replay):
     ck.cov["rule"] = ("corpus cases first; scenarios: output stream of 2-9 batches (1-4 replies, recipient sets with/without the session, whole batches not addressed to it), "
                       "first resume point before / inside / at the end of / beyond a batch or in a gap, 1-3 nodes applying the same stream at their own pace, "
                       "client connects / receives k messages (disconnect points between and inside batches) / disconnects / reconnects to any node incl. the one lagging most, "
-                      "compaction below the resume point; every scenario ends with a node that applies everything and a client that reads until the handler is parked; "
+                      "compaction below the resume point; restore scenarios: raft logs run through the real FSM with robust.MessageOffset = 0 or the binary's default, "
+                      "node A applies them live, node B is rebuilt from a protobuf snapshot (Snapshot+Persist, fresh FSM, Restore) and the client resumes on B after every "
+                      "message from just before the replayed window to the end (reference = stream of A); every scenario ends with a node that applies everything and a client that reads until the handler is parked; "
                       "non-trivial = messages were received on at least two connections; distinct by case text")
-    ck.cov["input_distribution"] = dict(stats, corpus_cases=ncorpus)
+    ck.cov["input_distribution"] = dict(stats, corpus_cases=ncorpus, restore=restore_info)
     ck.cov["samples"] = [{"case": lines[i], "impl": glines[i], "model": mlines[i]} for i in
                          ([0] if ncorpus else []) + [ncorpus, len(cases) - 1] if i < len(lines)][:3]
 
